@@ -2,7 +2,8 @@
     ([run_vector_is_trace]), for every state table; consequences for the tables [compile_top] builds:
     span 0 of regexp-matches and of regexp-search is in the language of the SRE ([nfa_span0_valid]), and the
     reported spans pass the exact validator [check_spans] when the SRE has no submatch
-    ([nfa_submatch_spans_valid_partial]).
+    ([nfa_submatch_spans_valid_partial]; the unconditional [nfa_submatch_spans_valid] is in NfaSubsFinal.v, built on
+    NfaSubsGraph.v / NfaSubsTfc.v / NfaSubsU.v / NfaSubsUAlg.v / NfaSubsValid.v / NfaSubsMain.v).
 
     Soundness-only invariant: every vector on the stack of [adv], in a posse or in the accept register is the
     fold of [update_match] along one path from the start state: merging ([padd]/[pmerge], the accept update)
@@ -360,7 +361,7 @@ Definition no_submatch (x : xsre) : Prop := count_subs (to_sre false x) = 0.
 (** the target theorem on the SREs without submatch (any nesting of the other operators, anchors, case flags,
     w/nocapture around $): the reported list is exactly the whole-match entry and it passes the validator.
 
-    Full statement (open; see the roadmap at the end of NfaSubsValid.v):
+    The full statement, for every well-formed SRE, is proved in NfaSubsFinal.v:
       Theorem nfa_submatch_spans_valid : forall x s b spans, wf_x x = true ->
         nfa_spans b x s = Some spans -> check_spans (to_sre false x) s spans = true. *)
 Theorem nfa_submatch_spans_valid_partial : forall x s b spans, wf_x x = true -> no_submatch x ->
